@@ -13,4 +13,4 @@ ASSUMPTIONS = ['reference model in vf/graph.py decides which calls would create 
 
 
 def streams(tier):
-    return hist_streams('C05', 'collide', 2400, 60000)
+    return hist_streams('C05', 'collide', 8000, 80000)
